@@ -1268,6 +1268,11 @@ class ManifestRecursiveLoader:
         manifest_stack = list(reversed(
             self._iter_manifests_for_path(path)))
 
+        # Manifests that do not match the MANIFEST entry recorded for
+        # them: they were edited behind our back, so the mtime short-cut
+        # can not rely on what they say (just like new_manifests)
+        modified_manifests = set()
+
         # the walk does not meet the Manifests above @path: bring
         # the MANIFEST entries referencing them up to date here
         # (keeping their hash sets), so that the updated directory
@@ -1285,6 +1290,7 @@ class ManifestRecursiveLoader:
                             e,
                             expected_dev=self.manifest_device):
                         self.updated_manifests.add(mpath)
+                        modified_manifests.add(fullpath)
         directory_ids = {}
         # Manifests met during the walk (they have a MANIFEST entry)
         linked_manifests = set()
@@ -1349,6 +1355,9 @@ class ManifestRecursiveLoader:
                 directory_ids[dirpath] = parent_dir_ids + [dir_id]
 
             new_entries = []
+            # (Manifests first: whether one was modified matters for
+            # the other files of the directory)
+            filenames.sort(key=lambda f: not f.startswith('Manifest'))
             for f in filenames:
                 # skip dotfiles
                 if f.startswith('.'):
@@ -1415,9 +1424,12 @@ class ManifestRecursiveLoader:
                     hashes=hashes,
                     expected_dev=self.manifest_device,
                     last_mtime=(None if mpath in new_manifests
+                                or mpath in modified_manifests
                                 else last_mtime))
                 if changed and mpath is not None:
                     self.updated_manifests.add(mpath)
+                    if fe.tag == 'MANIFEST':
+                        modified_manifests.add(fpath)
 
             # do we have Manifest in this directory?
             new_ignore_paths = []
